@@ -35,6 +35,30 @@ class NoOffset(datetime.tzinfo):
 
 NO_OFFSET = NoOffset()
 
+
+class IntSub(int):
+    """An int subclass (what an ORM, numpy-like wrapper or enum hands over)."""
+    __slots__ = ()
+
+    def __repr__(self):
+        return 'IntSub(%d)' % int(self)
+
+
+class StrSub(str):
+    __slots__ = ()
+
+
+_ENUMS = {}
+
+
+def int_enum(n):
+    import enum
+    e = _ENUMS.get(n)
+    if e is None:
+        e = _ENUMS[n] = enum.IntEnum('Code', {'M': n})
+    return e.M
+
+
 # ---------------------------------------------------------------- descriptors
 
 
@@ -47,6 +71,12 @@ def to_desc(v):
         return v
     if t is str:
         return v
+    if t is IntSub:
+        return {'isub': int(v)}
+    if t is StrSub:
+        return {'ssub': str(v)}
+    if isinstance(v, int) and t.__name__ == 'Code':
+        return {'ienum': int(v)}
     if t is float:
         return {'f': repr(v)}
     if t is bytes:
@@ -92,6 +122,12 @@ def from_desc(d):
     if t is dict:
         if 'f' in d:
             return float(d['f'])
+        if 'isub' in d:
+            return IntSub(d['isub'])
+        if 'ienum' in d:
+            return int_enum(d['ienum'])
+        if 'ssub' in d:
+            return StrSub(d['ssub'])
         if 'b' in d:
             return bytes.fromhex(d['b'])
         if 'x' in d:
@@ -146,6 +182,12 @@ def canon_value(v):
         return ['i', v]
     if t is float:
         return ['f', repr(v)]
+    if t is IntSub:
+        return ['isub', int(v)]
+    if t is StrSub:
+        return ['ssub', str(v)]
+    if isinstance(v, int) and t.__name__ == 'Code':
+        return ['ienum', int(v)]
     if t is str:
         if len(v) > _BIG:
             return ['s', len(v),
